@@ -168,25 +168,29 @@ Theorem c04_frame_emit_sound_x : forall f keys p i,
 Proof. exact frame_emit_sound_x. Qed.
 Print Assumptions c04_frame_emit_sound_x.
 
-(* which of the emitted clauses the engines accept.  FULL STATEMENT (false, F56):
-     forall k a b n, (a <= b) -> sql_accepts (to_sframe (k, a, b)) n = true
-   -- every frame the `window` transform lets through becomes a clause SQL accepts.  It holds for ROWS frames and for
-   RANGE frames without a numeric offset or over exactly one sort key; `sort {a, b} | window range:-1..0` and
-   `window range:-1..0` without a sort compile to SQL that no engine accepts *)
-Theorem c04_emitted_frame_accepted_partial : forall k a b n,
+(* which of the frames the `window` transform lets through the engines accept (SPECIFICATION sql_accepts): every ROWS
+   frame; a RANGE frame iff it has no numeric offset or stands over exactly one ORDER BY expression *)
+Theorem c04_frame_accepted_iff : forall k a b n,
   (forall x y, a = Some x -> b = Some y -> x <= y) ->
   sql_accepts (to_sframe (k, a, b)) n = match k with KRows => true | KRange => offset_free (KRange, a, b) || Nat.eqb n 1 end.
 Proof. intros k a b n H. destruct k; [apply emitted_rows_accepted | apply emitted_range_accepted]; exact H. Qed.
-Print Assumptions c04_emitted_frame_accepted_partial.
+Print Assumptions c04_frame_accepted_iff.
 
-Theorem c04_emitted_frame_accepted_refuted : exists k a b n,
-  (forall x y, a = Some x -> b = Some y -> x <= y) /\ frame_of (args_range a b) = WFrame (k, a, b) /\
-  sql_accepts (to_sframe (k, a, b)) n = false.
-Proof.
-  exists KRange, (Some (-1)), (Some 0), 2%nat. split; [intros x y E1 E2; injection E1 as <-; injection E2 as <-; vm_compute; discriminate|].
-  split; vm_compute; reflexivity.
-Qed.
-Print Assumptions c04_emitted_frame_accepted_refuted.
+(* /repo 91a6a23 (finding F56, fixed): translate_windowed rejects a RANGE offset over a number of sort keys other than
+   one.  FULL STATEMENT, now true: every frame clause that reaches SQL is one the engines accept ... *)
+Theorem c04_emitted_frame_accepted : forall supports n k a b sf,
+  (forall x y, a = Some x -> b = Some y -> x <= y) ->
+  emit_window supports n (k, a, b) = Some (Some sf) -> sql_accepts sf n = true.
+Proof. exact emit_window_accepted. Qed.
+Print Assumptions c04_emitted_frame_accepted.
+
+(* ... and nothing else is rejected: a ROWS frame never, a RANGE frame exactly when no engine accepts it *)
+Theorem c04_rejects_exactly_unacceptable_frames : forall n a b,
+  (forall x y, a = Some x -> b = Some y -> x <= y) ->
+  (emit_window true n (KRange, a, b) = None <-> sql_accepts (to_sframe (KRange, a, b)) n = false) /\
+  (forall supports, emit_window supports n (KRows, a, b) = Some (emit_frame supports (negb (Nat.eqb n 0)) (KRows, a, b))).
+Proof. intros n a b H. split; [apply emit_window_rejects_iff; exact H | intro; apply emit_window_rows_never_rejected]. Qed.
+Print Assumptions c04_rejects_exactly_unacceptable_frames.
 
 (* ties: the implicit RANGE frame includes the peers of the current row, `rows:..0` does not; the code keeps
    them apart (only range:..0 is elided under a sort) *)
@@ -251,6 +255,14 @@ Print Assumptions c04_gen_emit_frame_agrees.
 Theorem c04_gen_bound_distance_total : code_bound_distance_total = true.
 Proof. vm_compute. reflexivity. Qed.
 Print Assumptions c04_gen_bound_distance_total.
+
+(* gen_expr.rs: the rejection in front of the elision is the modelled one, for 0..3 sort keys *)
+Theorem c04_gen_emit_window_agrees :
+  forallb (fun supports => forallb (fun n => forallb (fun f =>
+     match code_emit_window supports n f, emit_window supports n f with
+     | None, None => true | Some x, Some y => osframe_eqb x y | _, _ => false end) small_frames) [0; 1; 2; 3]%nat) [true; false] = true.
+Proof. vm_compute. reflexivity. Qed.
+Print Assumptions c04_gen_emit_window_agrees.
 
 Theorem c04_gen_elided_frame_is_implicit :
   sframe_eqb (code_to_sframe (code_default_frame true)) (sql_implicit_frame true)
